@@ -109,15 +109,16 @@ ADD = {
     "C03": " Exactly the selected keys: field collection keeps every node of every selected key once and the result mapping is built from the collected keys (C01.R1-R6, run here as R7).",
     "C04": " The leaves: Int/Float/String/Boolean/ID coerce_input guards (bool rejection, integrality, range, finiteness) as in C10.R2 (run here as R8).",
     "C05": " Both built-in arguments coercers return exactly one entry per coroutine, in order, on every path including the failing one (the zip in coerce_arguments is positional).",
-    "C06": " Possible-type sets read by 5.5.2.3 hold every member, extension-added ones included.",
-    "C07": " The document-level collectors (variables, fragments reached through nested spreads) thread their accumulator (C06.R5) and possible-type sets are complete.",
+    "C06": " Possible-type sets read by 5.5.2.3 hold every member, extension-added ones included. Spec 5.6.1 as a path-outcome table of ValuesOfCorrectType._validate: a valid value (variable, null for a nullable type, parsable scalar, enum member) is never reported.",
+    "C07": " The document-level collectors (variables, fragments reached through nested spreads) thread their accumulator (C06.R5) and possible-type sets are complete. Spec 5.6.1 as a path-outcome table: null for non-null reported, every non-variable item of a list value validated against the item type (only a variable item is skipped), unparsable scalar / non-member enum reported, input objects judged field by field.",
     "C08": " Sequential and concurrent paths agree on failures because every failure leaving a field is the located MultipleException, the one kind recognised among gathered values (C02.R1/R2 + extraction rule).",
     "C09": " The mapping the serial loop iterates is filled in first-appearance order by accumulate-form stores only (C01.R1-R5, run here as R4).",
     "C10": " The list / non-null / null input wrappers hand on what the scalar returned, not the raw value (C04.R5). R6: the argument decision table (C05.R1): a variable-bound argument is null exactly when the variable's value is None, so falsy values travel like their literals.",
-    "C11": " `extend schema` reaches the schema unconditionally and schema directives accumulate across `schema` / `extend schema`; every concatenation of SDL pieces puts a line break between them.",
-    "C12": " `extend schema` stores the root names it introduces whether or not the type exists, so that the root-type clause can reject them.",
-    "C13": " Bake cascade: every container bakes every one of its members (arguments, fields, input fields, enum values, all types and directives), post-bake chains are awaited once per member; generator wrappers pass every payload on; hook failures yield one error per exception.",
+    "C11": " `extend schema` reaches the schema unconditionally and schema directives accumulate across `schema` / `extend schema`; every concatenation of SDL pieces puts a line break between them. IsValidImplementationFieldType accept side: a field type is refused only after its own non-null wrapper was considered ([T]! implements [T]); root resolvers as path tables (refuse by raising an error built there, answer after opening the introspection context, unknown name answers null).",
+    "C12": " `extend schema` stores the root names it introduces whether or not the type exists, so that the root-type clause can reject them. IsValidImplementationFieldType refuse side: only equal types conform outright, a wrapped interface type refuses every other unwrapped field type.",
+    "C13": " Bake cascade: every container bakes every one of its members (arguments, fields, input fields, enum values, all types and directives), post-bake chains are awaited once per member; generator wrappers pass every payload on; hook failures yield one error per exception. argument_coercer answers with a value (null included) without the on_argument_execution chain only when the argument carries no directives.",
     "C14": " The source is the first collected root field of the subscription root type; unknown field / missing generator are errors, not calls; Subscription.bake attaches generators to subscription-root fields only.",
+    "C15": " No raise statement of the package raises a module-level exception instance (located_error decorates coercible exceptions in place).",
     "C18": " Error records: coerce_value returns the record it built, `extensions` iff the error carries some, locations from the attached ones else the error's own, `path` is the list handed over by handle_field_error; several anonymous operations are refused before operations are indexed by name.",
 }
 for _k, _v in TABLE.items():
